@@ -26,6 +26,12 @@ RULE = ('S1: every token sequence over {(,),and,or,not,leaf} up to the length '
         'upper case, newlines + capitalised + glued parentheses, double '
         'spaces + mixed case).  A case = one rule value; non-trivial = at least 2 leaves '
         'and one operator (S5: at least 2 entries or an inner list of >=2).')
+RULE += (
+         ' S7: all sentences <= 7 tokens over three families of look-alike'
+         ' leaves that are NOT role checks (credential attribute names,'
+         ' quoted literals and target keys differing only in letter case;'
+         ' role:rx / rolE:rx / rx:rx / role:rx:rx), each leaf switched'
+         ' independently through credentials or target.')
 ASSUMPTIONS = [
     'leaf truth is supplied through real role: checks (role present/absent); '
     'other leaf kinds are covered by C04/C05/C06/C16',
@@ -137,6 +143,10 @@ def plan(tier, seed):
                          'weight': 2 ** n * n ** 3 * 5 / k})
     for p in range(1, b['s6c'] + 1):
         jobs.append({'space': 'S6c', 'period': p, 'weight': 2 ** p * 3000})
+    for n in range(1, b.get('s7', 7) + 1):
+        for fam in range(len(LEAF_FAMILIES)):
+            jobs.append({'space': 'S7', 'len': n, 'family': fam,
+                         'weight': lang.count_sentences(n) * 2 ** ((n + 1) // 2)})
     for j in jobs:
         j['tier'] = tier
     return jobs
@@ -237,6 +247,65 @@ def run_S1(cx, job):
     for tokens in core.shard_iter(iter(sents), job['shard'], job['of']):
         text, _, _ = _sentence_case(cx, 'S1', tokens)
         cx.acc.sample('S1', text)
+
+
+# S7: the leaves need not be role checks.  Families of leaf texts that are
+# pairwise DIFFERENT checks although they look alike: they differ only in
+# letter case (in positions where case matters), or one is a prefix of the
+# other, or they are the same kind with near-identical matches.  Each leaf is
+# switched on and off independently through the credentials / the target.
+LEAF_FAMILIES = [
+    # credential attribute names differing only by case
+    (['kx:1', 'kX:1', 'Kx:1', 'KX:1'],
+     lambda on: ({}, dict((l.split(':')[0], 1) for l in on)), 4),
+    # literal left sides differing only by case, fed from the target
+    (["'v':%(ta)s", "'V':%(tb)s", "'v':%(tA)s", "'V':%(tB)s"],
+     lambda on: (dict((l[l.index('(') + 1:-2], l[1]) for l in on), {}), 4),
+    # mixed kinds: role, attribute, constant and a reference, alike in text
+    (['role:rx', 'rolE:rx', 'rx:rx', 'role:rx:rx'],
+     lambda on: ({}, dict(([('roles', [r for r, l in (('rx', 'role:rx'),
+                                                      ('rx:rx', 'role:rx:rx'))
+                                      if l in on])]) +
+                          ([('rolE', 'rx')] if 'rolE:rx' in on else []) +
+                          ([('rx', 'rx')] if 'rx:rx' in on else []))), 4),
+]
+
+
+def run_S7(cx, job):
+    leaf_texts, world_of, kmax = LEAF_FAMILIES[job['family']]
+    for tokens in lang.sentences(job['len']):
+        k = tokens.count('L')
+        if k > kmax:
+            continue
+        leafs = leaf_texts[:k]
+        text = lang.to_text(tokens, leafs)
+        ast = lang.parse(lang.lex(text))
+        cx.acc.case('S7', k >= 2)
+        try:
+            cx.enf.set_rules(cx.policy.Rules.from_dict({'p': text}),
+                             use_conf=False)
+        except Exception as e:
+            cx.acc.violation('S7|load-raises', 'loading %r raised %r' %
+                             (text, e), {'rule': text}, 'loads', repr(e),
+                             'S7')
+            continue
+        for mask in range(1 << k):
+            on = [leafs[i] for i in range(k) if mask >> i & 1]
+            target, creds = world_of(on)
+            exp = lang.evaluate(ast, lambda leaf: leaf in on)
+            cx.acc.ev()
+            got = world.decide(cx.enf, 'p', target, creds)
+            if got != ('ok', exp):
+                cx.acc.violation(
+                    'S7|family%d|%s' % (job['family'], 'allows' if
+                                        got == ('ok', True) else 'denies'
+                                        if got[0] == 'ok' else got[1]),
+                    '%r with exactly the leaves %r true decides %r, the '
+                    'documented language says %r' % (text, on, got, exp),
+                    {'rule': text, 'true_leaves': on, 'target': target,
+                     'creds': creds}, exp, got, 'S7')
+            cx.acc.outcome('S7-%s' % exp)
+    cx.acc.sample('S7', {'leaves': leaf_texts})
 
 
 LABELS = ('@', '!', 'role:A', 'role:B')
